@@ -411,8 +411,11 @@ class History:
                 self.stats["lookups"] += 1
                 got = self.call(fn, nm)
                 if got == 0 or got not in real[kind] or real[kind][got][field] != nm:
-                    self.v("C20" if len(self.dbs) == 1 else "C13", "lookup-wrong", {"op": fn, "kind": "stored-name"},
-                           "%s(%r) returned %d, which %s (loaded %s)" % (fn, nm[:40], got, "does not bear that name" if got else "means not found", self.loaded))
+                    # both properties state this: C20 (a stored name finds an entity bearing it) and, with several
+                    # libraries, C13 (lookups reflect all loaded files, also those requested after an earlier lookup)
+                    for prop_ in (["C20"] if len(self.dbs) == 1 else ["C20", "C13"]):
+                        self.v(prop_, "lookup-wrong", {"op": fn, "kind": "stored-name"},
+                               "%s(%r) returned %d, which %s (loaded %s)" % (fn, nm[:40], got, "does not bear that name" if got else "means not found", self.loaded))
                 elif len(idxs) == 1 and rcol[(kind, got)] != mcol[(kind, idxs[0])]:
                     self.v("C13", "lookup-other-entity", {"op": fn, "kind": "unique-name-wrong-entity"}, "%s(%r): the name is unique but the entity returned is not the model's" % (fn, nm[:40]))
             for nm in (b"", b"no such name", b"\xff\xfe", b"T", b"sh"):
